@@ -454,7 +454,7 @@ def main(check_id, tier, replay=None, only=None):
         if again is None or again[0] != "violation":
             harness_errors.append("%s[%d]: failure did not reproduce from the saved case: %s" % (r["sub"], r["shard"], msg))
             continue
-        bucket = (r["sub"], msg.split(":")[0][:80])
+        bucket = (r["sub"], msg.split(":")[0][:24])
         path = _write_replay(check_id, r["sub"], case, msg, r["seed"], kind)
         if bucket in seen_buckets:
             continue
